@@ -33,6 +33,9 @@ func specC04() *propertySpec {
 			{"C04-R4.6", "discard-means-unused: at every endGroup with a computed discard flag, the value produced in the group is returned only on paths where the flag is false; the element of a rejected collection step is never accumulated (shared with C03-R2)", func(r *Run) { ruleC04R46(r); ruleC03R2(r) }},
 			{"C04-R4.7", "rejected-try-leaves-no-trace: an attempt of find that may be discarded does not modify the T it is drawn from unless it aborts the test case (the verdict must not depend on discarded bits)", ruleC04R47},
 			{"C04-R4.8", "retry-in-place-only-without-bits: a Repeat action is retried inside the same (kept) step only if it has drawn nothing from the bitstream; otherwise the step is rejected and discarded", ruleC04R48},
+			{"C04-R4.9", "recording-only-grows: rec.data and rec.groups are shortened or replaced only by prune and its helpers; every other store appends, so drawn() = len(rec.data) is the number of words drawn in recording runs as it is (by counter) in the others", ruleC04R49},
+			{"C04-R4.10", "no-failure-discarded: wherever a rejected attempt is marked as discarded (repeat.reject, endGroup with a discard flag) after user code may have run in it (generator values, function values), the failure flag is consulted first on every path: the verdict of a test case does not rest on bits that prune() removes", ruleNoFailureDiscarded},
+			{"C04-R7", "no-once-around-user-code: no sync.Once.Do function calls a function value (a panic there is remembered as 'done' and the same bits give another verdict afterwards)", ruleNoOnceAroundUserCode},
 			{"C04-R5", "prune-removes-exactly-discards: prune removes group i only under groups[i].discard; removeGroup deletes data[g.begin:g.end] and rebases by g.end-g.begin", ruleC04R5},
 			{"C04-R6", "generators-are-not-changed-by-draws: the generator is the other argument of the draw function: a value method neither stores through nor hands out data loaded from a generator field, a package-level variable or an object captured when the generator was built, so the same bits keep producing the same values (shared with C15-R3)", ruleC15R3},
 		},
@@ -1296,11 +1299,19 @@ func ruleC04R47(r *Run) {
 						}
 					}
 				}
+				nonFatal := false
 				for _, fc := range p.callsTo(sc, "(*T).fail") {
 					now, isC := constBool(p.resolve(fc.Arg(0)))
 					if !isC || !now {
-						ok, why = false, key+" transfers the failure non-fatally (fail(false, …)) and returns"
+						nonFatal = true
 					}
+				}
+				if nonFatal && !p.findConsultsBeforeDiscard() {
+					ok, why = false, key+" transfers the failure non-fatally (fail(false, …)) and returns, and find does not consult the failure flag before it discards a rejected attempt"
+				}
+				if nonFatal && ok {
+					r.OK(name+"#outer."+key, cs.Instr.Pos(), "the transfer is non-fatal, and find consults the failure flag before it discards a rejected attempt (C04-R4.10): the attempt's bits are kept")
+					continue
 				}
 				if mods > 0 && len(p.callsTo(sc, "(*T).fail")) == 0 {
 					ok, why = false, key+" modifies the T and returns"
@@ -1456,6 +1467,81 @@ func rulePruneBundle(r *Run) {
 	ruleC04R46(r)
 	ruleC04R47(r)
 	ruleC04R48(r)
+	ruleC04R49(r)
+	ruleNoFailureDiscarded(r)
 	ruleC04R5(r)
 	ruleC03R2(r)
+}
+
+// ruleC04R49: while a test case runs, the recording only grows. rec.data and rec.groups are shortened or replaced only
+// by prune (and helpers only prune calls) or by the function that allocates the recording; every other store appends to
+// the field's own value. drawn() is len(rec.data) for recording streams but a counter for the others: a recording
+// shortened during the run (e.g. a discarded group dropped eagerly in endGroup) moves drawn() backwards in recording runs
+// only, runAction takes 'skipped' there and nowhere else, and what is recorded is not what replays.
+func ruleC04R49(r *Run) {
+	p := r.P
+	pr := r.MustFn("(*recordedBits).prune")
+	if pr == nil {
+		return
+	}
+	allowed := map[*ssa.Function]bool{pr: true}
+	cg := p.CallGraph()
+	for changed := true; changed; {
+		changed = false
+		for fn, node := range cg.Nodes {
+			if fn == nil || allowed[fn] || !p.inRapid(fn) {
+				continue
+			}
+			if len(node.In) == 0 {
+				// a promoted-method wrapper nobody calls (bufBitStream / randomBitStream embed *recordedBits)
+				if fn.Synthetic != "" {
+					allowed[fn] = true
+					changed = true
+				}
+				continue
+			}
+			all := true
+			for _, e := range node.In {
+				if !allowed[e.Caller.Func] {
+					all = false
+				}
+			}
+			if all {
+				allowed[fn] = true
+				changed = true
+			}
+		}
+	}
+	n := 0
+	for _, fa := range p.fieldAccesses("recordedBits") {
+		if fa.Kind != "write" || (fa.Field != "data" && fa.Field != "groups") {
+			continue
+		}
+		st, isSt := fa.Instr.(*ssa.Store)
+		if !isSt {
+			continue
+		}
+		n++
+		name := p.hostName(fa.Fn)
+		construct := name + "#recordedBits." + fa.Field + ".grows"
+		if allowed[fa.Fn] || allowed[p.host(fa.Fn)] {
+			r.OK(construct, st.Pos(), "prune (or a helper only prune calls) rewrites the recording after the run")
+			continue
+		}
+		if al, ok := p.resolve(addrRoot(fa.FA)).(*ssa.Alloc); ok && al.Parent() == fa.Fn {
+			r.OK(construct, st.Pos(), "initialised by the function that allocates the recording")
+			continue
+		}
+		ok := false
+		if c, isC := p.resolve(st.Val).(*ssa.Call); isC && p.calleeKey(c.Common()) == "builtin:append" {
+			if ld, isL := p.resolve(c.Common().Args[0]).(*ssa.UnOp); isL && ld.Op == token.MUL {
+				if fa2, isF := ld.X.(*ssa.FieldAddr); isF && fa2.Field == fa.FA.Field && p.same(fa2.X, fa.FA.X) {
+					ok = true
+				}
+			}
+		}
+		r.Check(construct, st.Pos(), ok, "rec."+fa.Field+" = append(rec."+fa.Field+", …): the recording only grows while the test case runs",
+			"rec."+fa.Field+" is replaced by "+p.expr(st.Val)+" in "+name+", outside prune: a recording shortened during the run moves drawn() = len(rec.data) backwards in recording runs only (runAction then decides 'skipped' differently when recording and when replaying), and the recorded words are not the ones a replay reads")
+	}
+	r.Floor("stores to recordedBits.data/groups", n, 3)
 }
